@@ -1,13 +1,19 @@
-// Driver for C19 (CHECK / NOT NULL / DEFAULT / STORED generated columns): generated schemas over INT columns and DML
-// histories run on the real engine; every statement's outcome and the table contents afterwards are recorded for
-// the Coq pipeline model (Store/C19Check.v).  The property predicate is evaluated on the implementation alone with
-// SQL: no row makes a CHECK false, no NULL in a NOT NULL column, omitted columns hold their default, stored generated
-// columns equal their expression, a failing statement changes nothing.
+// Driver for C19 (CHECK / NOT NULL / DEFAULT / generated columns): generated schemas over the integer column types
+// (TINYINT..BIGINT, signed and UNSIGNED), literal and expression defaults, STORED and VIRTUAL generated columns, and
+// histories of INSERT [IGNORE] / UPDATE [IGNORE] / INSERT .. ON DUPLICATE KEY UPDATE / REPLACE run on the real engine;
+// every statement's outcome, warning count and the table contents afterwards are recorded for the Coq pipeline model
+// (Store/C19Check.v).  Single DECIMAL(p,1) and VARCHAR(n) columns go to Store/C19Scalar.v.  The property predicate is
+// evaluated on the implementation alone with SQL: no row makes a CHECK false, no NULL in a NOT NULL column, omitted
+// columns hold their default (literal or expression over the stored row), generated columns equal their expression, a
+// failing statement changes nothing.
 package main
 
 import (
 	"fmt"
+	"os"
 	"strings"
+
+	"github.com/cockroachdb/apd/v3"
 
 	"verifharness/lib"
 	"verifharness/lib/eng"
@@ -16,7 +22,7 @@ import (
 // ---- syntax ----
 
 type Term struct {
-	K string `json:"k"` // col lit add mul
+	K string `json:"k"` // col lit add mul new (VALUES(c) in ON DUPLICATE KEY UPDATE)
 	I int    `json:"i,omitempty"`
 	Z int64  `json:"z,omitempty"`
 	A *Term  `json:"a,omitempty"`
@@ -27,6 +33,8 @@ func (t *Term) sql() string {
 	switch t.K {
 	case "col":
 		return fmt.Sprintf("c%d", t.I)
+	case "new":
+		return fmt.Sprintf("VALUES(c%d)", t.I)
 	case "lit":
 		return fmt.Sprintf("%d", t.Z)
 	case "add":
@@ -42,16 +50,19 @@ func coqZ(z int64) string {
 	return fmt.Sprintf("%d", z)
 }
 
-func (t *Term) coq() string {
+// n = number of table columns (VALUES(c) is column n + c of old ++ new)
+func (t *Term) coq(n int) string {
 	switch t.K {
 	case "col":
 		return fmt.Sprintf("(TCol %d)", t.I)
+	case "new":
+		return fmt.Sprintf("(TCol %d)", n+t.I)
 	case "lit":
 		return fmt.Sprintf("(TLit %s)", coqZ(t.Z))
 	case "add":
-		return "(TAdd " + t.A.coq() + " " + t.B.coq() + ")"
+		return "(TAdd " + t.A.coq(n) + " " + t.B.coq(n) + ")"
 	}
-	return "(TMul " + t.A.coq() + " " + t.B.coq() + ")"
+	return "(TMul " + t.A.coq(n) + " " + t.B.coq(n) + ")"
 }
 
 type Check struct {
@@ -63,28 +74,45 @@ type Check struct {
 var opSQL = map[string]string{"Lt": "<", "Le": "<=", "Gt": ">", "Ge": ">=", "Eq": "=", "Ne": "<>"}
 
 func (c Check) sql() string { return c.L.sql() + " " + opSQL[c.Op] + " " + c.R.sql() }
-func (c Check) coq() string { return fmt.Sprintf("mkCheck %s %s %s", c.Op, c.L.coq(), c.R.coq()) }
+func (c Check) coq() string { return fmt.Sprintf("mkCheck %s %s %s", c.Op, c.L.coq(0), c.R.coq(0)) }
+
+type tyT struct {
+	sql    string
+	lo, hi int64
+	uns    bool
+}
+
+var types = map[string]tyT{
+	"I8": {"TINYINT", -128, 127, false}, "I16": {"SMALLINT", -32768, 32767, false}, "I32": {"INT", -2147483648, 2147483647, false},
+	"I64": {"BIGINT", -9223372036854775808, 9223372036854775807, false},
+	"U8":  {"TINYINT UNSIGNED", 0, 255, true}, "U16": {"SMALLINT UNSIGNED", 0, 65535, true}, "U32": {"INT UNSIGNED", 0, 4294967295, true},
+}
 
 type Col struct {
+	Ty      string `json:"ty"`
 	NotNull bool   `json:"nn,omitempty"`
 	HasDef  bool   `json:"hd,omitempty"`
 	Def     int64  `json:"d,omitempty"`
+	DefExpr *Term  `json:"de,omitempty"`
 	Gen     *Term  `json:"g,omitempty"`
+	Virt    bool   `json:"virt,omitempty"`
 }
 
 func (c Col) coq() string {
 	g := "None"
 	if c.Gen != nil {
-		g = "(Some " + c.Gen.coq() + ")"
+		g = "(Some " + c.Gen.coq(0) + ")"
 	}
-	d := "None"
+	d := "DNone"
 	if c.HasDef {
-		d = "(V " + coqZ(c.Def) + ")"
+		d = "(DLit " + coqZ(c.Def) + ")"
+	} else if c.DefExpr != nil {
+		d = "(DExpr " + c.DefExpr.coq(0) + ")"
 	}
-	return fmt.Sprintf("mkCol %s %s %s", lib.CoqBool(c.NotNull), d, g)
+	return fmt.Sprintf("mkCol %s %s %s %s %s", c.Ty, lib.CoqBool(c.NotNull), d, g, lib.CoqBool(c.Virt))
 }
 
-// Raw value: K in null int dec stri strf def; Z = integer or tenths
+// Raw value: K in null int dec stri strf bad def; Z = integer, tenths, or the numeric prefix of a malformed string
 type Raw struct {
 	K string `json:"k"`
 	Z int64  `json:"z,omitempty"`
@@ -110,6 +138,11 @@ func (r Raw) sql() string {
 		return fmt.Sprintf("'%d'", r.Z)
 	case "strf":
 		return "'" + tenths(r.Z) + "'"
+	case "bad":
+		if r.Z == 0 {
+			return "'abc'"
+		}
+		return fmt.Sprintf("'%dabc'", r.Z)
 	}
 	return "DEFAULT"
 }
@@ -126,9 +159,13 @@ func (r Raw) coq() string {
 		return "RStrI " + coqZ(r.Z)
 	case "strf":
 		return "RStrF " + coqZ(r.Z)
+	case "bad":
+		return "RBad " + coqZ(r.Z)
 	}
 	return "RDef"
 }
+
+func (r Raw) isString() bool { return r.K == "stri" || r.K == "strf" || r.K == "bad" }
 
 type Set struct {
 	I   int   `json:"i"`
@@ -137,7 +174,7 @@ type Set struct {
 }
 
 type Stmt struct {
-	K      string  `json:"k"` // insert update upsert (INSERT one row ... ON DUPLICATE KEY UPDATE sets)
+	K      string  `json:"k"` // insert update upsert (INSERT .. ON DUPLICATE KEY UPDATE sets) replace
 	Ignore bool    `json:"ign,omitempty"`
 	Cols   []int   `json:"cols,omitempty"` // insert: the listed columns (others omitted)
 	Rows   [][]Raw `json:"rows,omitempty"` // values for Cols
@@ -145,10 +182,39 @@ type Stmt struct {
 	Where  *int64  `json:"where,omitempty"`
 }
 
+// scalar cases: one DECIMAL(p,1) or VARCHAR(n) column
+type ScalarStmt struct {
+	Upd    bool   `json:"upd,omitempty"`
+	Ignore bool   `json:"ign,omitempty"`
+	ID     int64  `json:"id"`
+	H      int64  `json:"h,omitempty"` // decimal: hundredths
+	S      string `json:"s,omitempty"`
+}
+type ScalarCheck struct {
+	K   string `json:"k"` // cmp mulcmp | ne len
+	Op  string `json:"op,omitempty"`
+	M   int64  `json:"m,omitempty"`
+	Lit int64  `json:"lit,omitempty"`
+	S   string `json:"s,omitempty"`
+}
+
+// script cases: statements outside the model (triggers, foreign keys); counts[i] must not grow
+type Script struct {
+	Setup  []string `json:"setup"`
+	Stmts  []string `json:"stmts"`
+	Counts []string `json:"counts"`
+	Sigs   []string `json:"sigs"`
+}
+
 type caseT struct {
-	Cols   []Col   `json:"cols"` // column 0 is the id
-	Checks []Check `json:"checks"`
-	H      []Stmt  `json:"h"`
+	Kind    string        `json:"kind,omitempty"` // "" (integer pipeline) dec str script
+	Cols    []Col         `json:"cols,omitempty"` // column 0 is the id
+	Checks  []Check       `json:"checks,omitempty"`
+	H       []Stmt        `json:"h,omitempty"`
+	P       int           `json:"p,omitempty"` // DECIMAL(p,1) / VARCHAR(p)
+	SChecks []ScalarCheck `json:"schecks,omitempty"`
+	SH      []ScalarStmt  `json:"sh,omitempty"`
+	Script  *Script       `json:"script,omitempty"`
 }
 
 func (s Stmt) sql() string {
@@ -157,7 +223,7 @@ func (s Stmt) sql() string {
 		ign = " IGNORE"
 	}
 	var cn, rows []string
-	if s.K == "insert" || s.K == "upsert" {
+	if s.K != "update" {
 		for _, i := range s.Cols {
 			cn = append(cn, fmt.Sprintf("c%d", i))
 		}
@@ -171,6 +237,9 @@ func (s Stmt) sql() string {
 		if s.K == "insert" {
 			return fmt.Sprintf("INSERT%s INTO t (%s) VALUES %s", ign, strings.Join(cn, ", "), strings.Join(rows, ", "))
 		}
+		if s.K == "replace" {
+			return fmt.Sprintf("REPLACE INTO t (%s) VALUES %s", strings.Join(cn, ", "), strings.Join(rows, ", "))
+		}
 	}
 	var sets []string
 	for _, st := range s.Sets {
@@ -183,7 +252,7 @@ func (s Stmt) sql() string {
 		sets = append(sets, fmt.Sprintf("c%d = %s", st.I, rhs))
 	}
 	if s.K == "upsert" {
-		return fmt.Sprintf("INSERT INTO t (%s) VALUES %s ON DUPLICATE KEY UPDATE %s", strings.Join(cn, ", "), strings.Join(rows, ", "), strings.Join(sets, ", "))
+		return fmt.Sprintf("INSERT%s INTO t (%s) VALUES %s ON DUPLICATE KEY UPDATE %s", ign, strings.Join(cn, ", "), strings.Join(rows, ", "), strings.Join(sets, ", "))
 	}
 	q := fmt.Sprintf("UPDATE%s t SET %s", ign, strings.Join(sets, ", "))
 	if s.Where != nil {
@@ -194,7 +263,7 @@ func (s Stmt) sql() string {
 
 func (s Stmt) coq(ncols int) string {
 	var rows []string
-	if s.K == "insert" || s.K == "upsert" {
+	if s.K != "update" {
 		for _, r := range s.Rows {
 			full := make([]string, ncols)
 			for i := range full {
@@ -208,6 +277,9 @@ func (s Stmt) coq(ncols int) string {
 		if s.K == "insert" {
 			return fmt.Sprintf("Insert %s %s", lib.CoqBool(s.Ignore), lib.CoqList(rows))
 		}
+		if s.K == "replace" {
+			return fmt.Sprintf("Replace %s", lib.CoqList(rows))
+		}
 	}
 	var sets []string
 	for _, st := range s.Sets {
@@ -215,12 +287,12 @@ func (s Stmt) coq(ncols int) string {
 		if st.Raw != nil {
 			rhs = "URaw (" + st.Raw.coq() + ")"
 		} else {
-			rhs = "UTerm " + st.T.coq()
+			rhs = "UTerm " + st.T.coq(ncols)
 		}
 		sets = append(sets, fmt.Sprintf("(%d%%nat, %s)", st.I, rhs))
 	}
 	if s.K == "upsert" {
-		return fmt.Sprintf("Upsert %s %s", rows[0], lib.CoqList(sets))
+		return fmt.Sprintf("Upsert %s %s %s", lib.CoqBool(s.Ignore), lib.CoqList(rows), lib.CoqList(sets))
 	}
 	wh := "None"
 	if s.Where != nil {
@@ -229,47 +301,151 @@ func (s Stmt) coq(ncols int) string {
 	return fmt.Sprintf("Update %s %s %s", lib.CoqBool(s.Ignore), lib.CoqList(sets), wh)
 }
 
+func (s Stmt) hasString() bool {
+	for _, r := range s.Rows {
+		for _, v := range r {
+			if v.isString() {
+				return true
+			}
+		}
+	}
+	for _, st := range s.Sets {
+		if st.Raw != nil && st.Raw.isString() {
+			return true
+		}
+	}
+	return false
+}
+
 // ---- generator ----
 
-func col(i int) *Term         { return &Term{K: "col", I: i} }
-func lit(z int64) *Term       { return &Term{K: "lit", Z: z} }
-func add(a, b *Term) *Term    { return &Term{K: "add", A: a, B: b} }
-func mul(a, b *Term) *Term    { return &Term{K: "mul", A: a, B: b} }
+func col(i int) *Term      { return &Term{K: "col", I: i} }
+func newv(i int) *Term     { return &Term{K: "new", I: i} }
+func lit(z int64) *Term    { return &Term{K: "lit", Z: z} }
+func add(a, b *Term) *Term { return &Term{K: "add", A: a, B: b} }
+func mul(a, b *Term) *Term { return &Term{K: "mul", A: a, B: b} }
 
-func genRaw(r *lib.RNG) Raw {
-	switch x := r.Intn(20); {
-	case x < 9:
+// a value outside the column type
+func outOfRange(r *lib.RNG, ty string) int64 {
+	t := types[ty]
+	switch ty {
+	case "I8":
+		return lib.Pick(r, []int64{128, 200, 300, -129, -200})
+	case "I16":
+		return lib.Pick(r, []int64{32768, 40000, -32769, -40000})
+	case "I32":
+		return lib.Pick(r, []int64{2147483648, 5000000000, -2147483649})
+	case "U8":
+		return lib.Pick(r, []int64{256, 300, -1, -5, -300})
+	case "U16":
+		return lib.Pick(r, []int64{65536, 70000, -1, -7})
+	case "U32":
+		return lib.Pick(r, []int64{4294967296, 5000000000, -1, -5})
+	}
+	return t.hi
+}
+
+// Fractional and malformed strings are not written next to UNSIGNED columns: a CHECK over such a column compares as
+// uint64, where the failed conversion is returned as an error ("Truncated incorrect ... value") instead of comparing as 0.
+// The same holds for a comparison between columns of DIFFERENT integer types (both sides are first converted to a
+// common type, truncating the string): such strings are only written when every base column is INT.
+func genRaw(r *lib.RNG, ty string, wide bool) Raw {
+	v := genRaw0(r, ty)
+	if !wide && (v.K == "strf" || v.K == "bad") {
+		return Raw{K: "int", Z: int64(r.Range(0, 15))}
+	}
+	// INT-only schemas keep INT generated columns (same-type comparisons): no value that could overflow them
+	if wide && (v.K == "int" || v.K == "stri") && !fits("I8", v.Z) {
+		return Raw{K: "int", Z: int64(r.Range(0, 15))}
+	}
+	// a decimal literal written into an UNSIGNED column is not rounded by the planner: it reaches the CHECKs as a decimal
+	// (recorded as a finding through a script case); the model has no decimal cells
+	if types[ty].uns && v.K == "dec" {
+		return Raw{K: "int", Z: v.Z / 10}
+	}
+	return v
+}
+
+func genRaw0(r *lib.RNG, ty string) Raw {
+	switch x := r.Intn(40); {
+	case x < 16:
 		return Raw{K: "int", Z: int64(r.Range(-3, 15))}
-	case x < 11:
+	case x < 20:
 		return Raw{K: "null"}
-	case x < 13:
+	case x < 24:
 		return Raw{K: "def"}
-	case x < 15:
+	case x < 28:
 		return Raw{K: "stri", Z: int64(r.Range(-3, 15))}
-	case x < 18:
+	case x < 33:
 		t := int64(r.Range(-3, 15))*10 + int64(r.Range(1, 9))
 		if r.Chance(1, 5) {
 			t = -t
 		}
 		return Raw{K: "strf", Z: t}
-	default:
+	case x < 36:
 		t := int64(r.Range(0, 15))*10 + int64(r.Range(1, 9))
 		return Raw{K: "dec", Z: t}
+	case x < 37:
+		return Raw{K: "bad", Z: lib.Pick(r, []int64{0, 0, 7, 12, 5})}
+	default:
+		if ty == "I64" {
+			return Raw{K: "int", Z: int64(r.Range(-3, 15))}
+		}
+		if ty == "I32" && r.Chance(1, 2) {
+			return Raw{K: "int", Z: int64(r.Range(-3, 15))}
+		}
+		k := "int"
+		if r.Chance(1, 4) {
+			k = "stri"
+		}
+		return Raw{K: k, Z: outOfRange(r, ty)}
 	}
 }
 
 func gen(r *lib.RNG) caseT {
 	var c caseT
 	nb := r.Range(2, 3)
-	c.Cols = append(c.Cols, Col{NotNull: true})
+	c.Cols = append(c.Cols, Col{Ty: "I32", NotNull: true})
+	wide := r.Chance(1, 2) // only INT columns (the fragment of the earlier version)
+	genTy := "I64"
+	if wide {
+		genTy = "I32"
+	}
 	for i := 1; i <= nb; i++ {
-		cl := Col{NotNull: r.Chance(1, 3)}
-		if r.Chance(1, 2) {
+		cl := Col{Ty: "I32", NotNull: r.Chance(1, 3)}
+		if !wide {
+			cl.Ty = lib.Pick(r, []string{"I8", "I8", "I16", "I32", "U8", "U8", "U16"})
+		}
+		switch x := r.Intn(6); {
+		case x < 2:
 			cl.HasDef, cl.Def = true, int64(r.Range(0, 9))
+		case x == 2 && i >= 2:
+			// an expression default over an earlier base column; BIGINT so that the value always fits
+			cl.Ty = genTy
+			j := r.Range(1, i-1)
+			if r.Chance(1, 2) {
+				cl.DefExpr = add(col(j), lit(int64(r.Range(1, 5))))
+			} else {
+				cl.DefExpr = mul(col(j), lit(2))
+			}
 		}
 		c.Cols = append(c.Cols, cl)
 	}
 	base := func() int { return r.Range(1, nb) }
+	// arithmetic and comparisons between two UNSIGNED operands are done in uint64 (a negative written value wraps):
+	// an unsigned column is only combined with literals
+	signed := func(j int) int {
+		if !types[c.Cols[j].Ty].uns {
+			return j
+		}
+		for k := 1; k < len(c.Cols); k++ {
+			if !types[c.Cols[k].Ty].uns {
+				return k
+			}
+		}
+		return -1
+	}
+	virtual := r.Chance(1, 5)
 	for i, ng := 0, r.Intn(3); i < ng; i++ {
 		var e *Term
 		switch r.Intn(3) {
@@ -278,7 +454,11 @@ func gen(r *lib.RNG) caseT {
 		case 1:
 			e = mul(col(base()), lit(int64(r.Range(2, 3))))
 		default:
-			e = add(col(base()), col(base()))
+			if a, b := signed(base()), signed(base()); a > 0 && b > 0 {
+				e = add(col(a), col(b))
+			} else {
+				e = add(col(base()), lit(7))
+			}
 		}
 		if i > 0 && r.Chance(1, 2) {
 			// a generated column over the previous generated column
@@ -289,92 +469,190 @@ func gen(r *lib.RNG) caseT {
 				e = add(prev, col(base()))
 			}
 		}
-		c.Cols = append(c.Cols, Col{Gen: e})
+		c.Cols = append(c.Cols, Col{Ty: genTy, Gen: e, Virt: virtual && r.Chance(2, 3)})
 	}
 	n := len(c.Cols)
+	var gens []int
+	for i, cl := range c.Cols {
+		if cl.Gen != nil {
+			gens = append(gens, i)
+		}
+	}
 	anyc := func() int { return r.Range(1, n-1) }
 	ops := []string{"Lt", "Le", "Gt", "Ge", "Ne", "Lt", "Le", "Ge", "Eq"}
 	for i, nc := 0, r.Intn(4); i < nc; i++ {
 		ck := Check{Op: lib.Pick(r, ops[:8])}
-		switch r.Intn(5) {
+		switch r.Intn(6) {
 		case 0, 1:
 			ck.L, ck.R = col(anyc()), lit(int64(r.Range(0, 12)))
 		case 2:
-			ck.L, ck.R = col(anyc()), col(anyc())
-		case 3:
-			ck.L, ck.R = add(col(anyc()), col(anyc())), lit(int64(r.Range(5, 25)))
-		default:
-			ck.L, ck.R = add(col(anyc()), lit(int64(r.Range(1, 3)))), lit(int64(r.Range(3, 14)))
-		}
-		if ck.Op == "Gt" || ck.Op == "Ge" {
-			if ck.R.K == "lit" {
-				ck.R.Z -= 6
+			if a, b := signed(anyc()), signed(anyc()); a > 0 && b > 0 {
+				ck.L, ck.R = col(a), col(b)
+			} else {
+				ck.L, ck.R = col(anyc()), lit(int64(r.Range(0, 12)))
 			}
+		case 3:
+			if a, b := signed(anyc()), signed(anyc()); a > 0 && b > 0 {
+				ck.L, ck.R = add(col(a), col(b)), lit(int64(r.Range(5, 25)))
+			} else {
+				ck.L, ck.R = add(col(anyc()), lit(2)), lit(int64(r.Range(5, 25)))
+			}
+		case 4:
+			ck.L, ck.R = add(col(anyc()), lit(int64(r.Range(1, 3)))), lit(int64(r.Range(3, 14)))
+		default:
+			// a literal at the bounds of the column type: what clamping produces
+			j := base()
+			t := types[c.Cols[j].Ty]
+			ck.Op = lib.Pick(r, []string{"Ne", "Lt", "Lt", "Gt"})
+			ck.L, ck.R = col(j), lit(lib.Pick(r, []int64{t.hi, t.lo, 100, 0, 200}))
+			if ck.Op == "Gt" {
+				ck.R.Z = lib.Pick(r, []int64{t.lo, -10})
+			}
+		}
+		if (ck.Op == "Gt" || ck.Op == "Ge") && ck.R.K == "lit" && ck.R.Z > 0 {
+			ck.R.Z -= 6
 		}
 		c.Checks = append(c.Checks, ck)
 	}
 	nextID := int64(1)
-	for i, ns := 0, r.Range(5, 11); i < ns; i++ {
-		if nextID > 1 && r.Chance(1, 6) {
-			// INSERT ... ON DUPLICATE KEY UPDATE on an id that usually exists
-			s := Stmt{K: "upsert", Cols: []int{0}}
+	existingID := func() int64 { return int64(r.Range(1, int(nextID))) }
+	valueRow := func(s *Stmt, id int64, typed bool) []Raw {
+		row := []Raw{{K: "int", Z: id}}
+		for _, j := range s.Cols[1:] {
+			if c.Cols[j].Gen != nil {
+				row = append(row, Raw{K: "def"})
+			} else if typed {
+				row = append(row, Raw{K: "int", Z: int64(r.Range(-3, 15))})
+			} else {
+				v := genRaw(r, c.Cols[j].Ty, wide)
+				if v.K == "def" && c.Cols[j].DefExpr != nil && c.Cols[j].NotNull {
+					// an explicit DEFAULT of a NOT NULL expression default is evaluated for all tuples up front
+					// (its NULL error precedes the errors of earlier rows); omitted columns are not
+					v = Raw{K: "int", Z: int64(r.Range(-3, 15))}
+				}
+				row = append(row, v)
+			}
+		}
+		return row
+	}
+	// sometimes list a generated column: DEFAULT in the first tuple, possibly an explicit value later
+	// A listed column written as DEFAULT whose expression reads an UNLISTED column makes the engine fail with
+	// "unable to find field with index -1" (outside C19): list every base column in that case.
+	listGen := func(s *Stmt) {
+		needAll := len(gens) > 0 && r.Chance(1, 6)
+		for _, j := range s.Cols {
+			if c.Cols[j].DefExpr != nil {
+				needAll = needAll || true
+			}
+		}
+		if needAll {
+			s.Cols = []int{0}
 			for j := 1; j <= nb; j++ {
 				s.Cols = append(s.Cols, j)
 			}
-			id := int64(r.Range(1, int(nextID)))
-			if id == nextID {
-				nextID++
+		}
+		if len(gens) > 0 && needAll && r.Chance(1, 2) {
+			for _, g := range gens[:r.Range(1, len(gens))] {
+				s.Cols = append(s.Cols, g)
 			}
-			row := []Raw{{K: "int", Z: id}}
-			for range s.Cols[1:] {
-				row = append(row, Raw{K: "int", Z: int64(r.Range(-3, 15))})
+		}
+	}
+	explicitGen := func(s *Stmt) {
+		g := s.Cols[len(s.Cols)-1]
+		if c.Cols[g].Gen == nil {
+			return
+		}
+		for k := range s.Rows {
+			if (k > 0 && r.Chance(1, 2)) || r.Chance(1, 12) {
+				s.Rows[k][len(s.Cols)-1] = Raw{K: "int", Z: int64(r.Range(20, 40))}
 			}
-			s.Rows = [][]Raw{row}
+		}
+	}
+	for i, ns := 0, r.Range(5, 11); i < ns; i++ {
+		switch x := r.Intn(20); {
+		case nextID > 1 && x < 3:
+			// INSERT [IGNORE] ... ON DUPLICATE KEY UPDATE, 1-2 rows, ids that usually exist
+			s := Stmt{K: "upsert", Ignore: r.Chance(1, 4), Cols: []int{0}}
+			for j := 1; j <= nb; j++ {
+				s.Cols = append(s.Cols, j)
+			}
+			for k, nr := 0, r.Range(1, 2); k < nr; k++ {
+				id := existingID()
+				if id == nextID {
+					nextID++
+				}
+				s.Rows = append(s.Rows, valueRow(&s, id, true))
+			}
 			for k, nk := 0, r.Range(1, 2); k < nk; k++ {
 				st := Set{I: base()}
-				switch r.Intn(3) {
+				switch r.Intn(5) {
 				case 0:
 					st.Raw = &Raw{K: "int", Z: int64(r.Range(-3, 15))}
+					if r.Chance(1, 6) {
+						st.Raw = &Raw{K: "null"}
+					}
 				case 1:
 					st.T = add(col(base()), lit(int64(r.Range(1, 4))))
-				default:
+				case 2:
 					st.T = mul(col(base()), lit(2))
+				case 3:
+					st.T = newv(base())
+				default:
+					st.T = add(newv(base()), lit(int64(r.Range(1, 4))))
 				}
 				s.Sets = append(s.Sets, st)
 			}
 			c.H = append(c.H, s)
-		} else if r.Chance(7, 10) || nextID == 1 {
-			s := Stmt{K: "insert", Ignore: r.Chance(1, 4), Cols: []int{0}}
+		case nextID > 1 && x < 5:
+			// REPLACE, 1-2 rows
+			s := Stmt{K: "replace", Cols: []int{0}}
 			for j := 1; j <= nb; j++ {
 				if r.Chance(3, 4) {
 					s.Cols = append(s.Cols, j)
 				}
 			}
-			for k, nr := 0, r.Range(1, 3); k < nr; k++ {
-				row := []Raw{{K: "int", Z: nextID}}
-				nextID++
-				for range s.Cols[1:] {
-					row = append(row, genRaw(r))
+			listGen(&s)
+			for k, nr := 0, r.Range(1, 2); k < nr; k++ {
+				id := existingID()
+				if id == nextID {
+					nextID++
 				}
-				s.Rows = append(s.Rows, row)
+				s.Rows = append(s.Rows, valueRow(&s, id, r.Chance(1, 2)))
 			}
+			explicitGen(&s)
 			c.H = append(c.H, s)
-		} else {
+		case x < 15 || nextID == 1:
+			s := Stmt{K: "insert", Ignore: r.Chance(1, 3), Cols: []int{0}}
+			for j := 1; j <= nb; j++ {
+				if r.Chance(3, 4) {
+					s.Cols = append(s.Cols, j)
+				}
+			}
+			listGen(&s)
+			for k, nr := 0, r.Range(1, 3); k < nr; k++ {
+				s.Rows = append(s.Rows, valueRow(&s, nextID, false))
+				nextID++
+			}
+			explicitGen(&s)
+			c.H = append(c.H, s)
+		default:
 			s := Stmt{K: "update", Ignore: r.Chance(1, 3)}
 			for k, nk := 0, r.Range(1, 2); k < nk; k++ {
 				st := Set{I: base()}
 				if r.Chance(1, 2) {
-					rw := genRaw(r)
+					rw := genRaw(r, c.Cols[st.I].Ty, wide)
 					if rw.K == "dec" {
 						rw = Raw{K: "int", Z: rw.Z / 10}
 					}
 					st.Raw = &rw
 				} else {
-					switch r.Intn(3) {
+					switch r.Intn(4) {
 					case 0:
 						st.T = add(col(base()), lit(int64(r.Range(1, 4))))
 					case 1:
 						st.T = col(base())
+					case 2:
+						st.T = add(col(base()), lit(lib.Pick(r, []int64{100, 120, 250, -130, 40000})))
 					default:
 						st.T = mul(col(base()), lit(2))
 					}
@@ -412,6 +690,14 @@ func toI(v interface{}) int64 {
 		return int64(x)
 	case int:
 		return int64(x)
+	case uint8:
+		return int64(x)
+	case uint16:
+		return int64(x)
+	case uint32:
+		return int64(x)
+	case uint64:
+		return int64(x)
 	}
 	panic(fmt.Sprintf("unexpected value %T", v))
 }
@@ -424,55 +710,93 @@ func errKind(err error) string {
 	switch {
 	case strings.Contains(m, "Check constraint"):
 		return "ECheck"
+	case strings.Contains(m, "default value attempted to return null"):
+		return "EDefNull"
+	case strings.Contains(m, "The value specified for generated column"):
+		return "EGenValue"
 	case eng.ErrKind(err) == "not-null", strings.Contains(m, "doesn't have a default value"):
 		return "ENotNull"
 	case strings.Contains(m, "is not a valid value"), strings.Contains(m, "invalid type"):
 		return "EInvalid"
+	case strings.Contains(m, "out of range"), strings.Contains(m, "Out of range"):
+		return "ERange"
+	case strings.Contains(m, "too large for column"):
+		return "ETooLong"
 	}
 	return "other"
 }
 
-func (s Stmt) shape(cols []Col) string {
-	if s.K == "upsert" {
-		return "upsert"
-	}
-	if s.K == "insert" {
-		for _, r := range s.Rows {
-			for _, v := range r {
-				if v.K == "strf" {
-					return "insert-fractional-string"
+func fits(ty string, z int64) bool { t := types[ty]; return t.lo <= z && z <= t.hi }
+
+// the root cause class of a statement, computed from its shape
+func (s Stmt) shape(cols []Col) string { return s.shapeFor(cols, "") }
+
+// base = the violated clause: only the causes that can produce it are considered
+// (a malformed string with an in-range prefix is stored as that prefix, which is also what arithmetic sees: it can only
+// break a CHECK; INSERT IGNORE replaces NULL by 0 BEFORE the checks run: it cannot break a CHECK)
+func (s Stmt) shapeFor(cols []Col, base string) string {
+	if s.K == "update" {
+		if s.Ignore {
+			for _, st := range s.Sets {
+				if cols[st.I].NotNull && (st.T != nil || st.Raw.K == "null" || (st.Raw.K == "def" && !cols[st.I].HasDef)) {
+					return "update-ignore-null"
 				}
 			}
 		}
-		if s.Ignore {
-			listed := map[int]bool{}
-			for _, i := range s.Cols {
-				listed[i] = true
+		return "update-other"
+	}
+	// the INSERT pipeline: insert / replace / the insert half of upsert
+	for k, r := range s.Rows {
+		for j, v := range r {
+			if k > 0 && cols[s.Cols[j]].Gen != nil && v.K != "def" && (base == "" || base == "generated-differs") {
+				return "insert-explicit-generated-value"
 			}
-			for i, c := range cols {
-				if c.NotNull && c.Gen == nil && !listed[i] && !c.HasDef {
+		}
+	}
+	for _, r := range s.Rows {
+		for _, v := range r {
+			if v.K == "strf" {
+				return "insert-fractional-string"
+			}
+		}
+	}
+	if s.Ignore {
+		for _, r := range s.Rows {
+			for j, v := range r {
+				if (v.K == "int" || v.K == "stri") && !fits(cols[s.Cols[j]].Ty, v.Z) {
+					return "insert-ignore-out-of-range"
+				}
+			}
+		}
+		for _, r := range s.Rows {
+			for _, v := range r {
+				if v.K == "bad" && (base == "" || base == "check-false-stored") {
+					return "insert-ignore-malformed-string"
+				}
+			}
+		}
+		if base == "check-false-stored" {
+			return s.K + "-other"
+		}
+		listed := map[int]bool{}
+		for _, i := range s.Cols {
+			listed[i] = true
+		}
+		for i, c := range cols {
+			if c.NotNull && c.Gen == nil && !listed[i] && !c.HasDef {
+				return "insert-ignore-null"
+			}
+		}
+		for _, r := range s.Rows {
+			for j, v := range r {
+				c := cols[s.Cols[j]]
+				if c.NotNull && (v.K == "null" || (v.K == "def" && !c.HasDef)) {
 					return "insert-ignore-null"
 				}
 			}
-			for _, r := range s.Rows {
-				for j, v := range r {
-					c := cols[s.Cols[j]]
-					if c.NotNull && (v.K == "null" || (v.K == "def" && !c.HasDef)) {
-						return "insert-ignore-null"
-					}
-				}
-			}
-		}
-		return "insert-other"
-	}
-	if s.Ignore {
-		for _, st := range s.Sets {
-			if cols[st.I].NotNull && (st.T != nil || st.Raw.K == "null" || (st.Raw.K == "def" && !cols[st.I].HasDef)) {
-				return "update-ignore-null"
-			}
 		}
 	}
-	return "update-other"
+	return s.K + "-other"
 }
 
 func count(s *eng.S, q string) int64 {
@@ -483,23 +807,56 @@ func count(s *eng.S, q string) int64 {
 	return toI(r.Rows[0][0])
 }
 
+type failT struct{ sig, what string }
+
+func report(c *lib.Ctx, id int, fails []failT, cs caseT) {
+	c.PredChecked()
+	seen := map[string]bool{}
+	for _, f := range fails {
+		if !seen[f.sig] {
+			seen[f.sig] = true
+			c.PredFail(id, f.sig, f.what, cs)
+		}
+	}
+}
+
 func run(c *lib.Ctx, cs caseT) {
+	switch cs.Kind {
+	case "dec":
+		runDec(c, cs)
+		return
+	case "str":
+		runStr(c, cs)
+		return
+	case "script":
+		runScript(c, cs)
+		return
+	}
 	e := eng.New("db")
 	s := e.Session()
 	var defs []string
+	hasVirtual := false
 	for i, cl := range cs.Cols {
-		d := fmt.Sprintf("c%d INT", i)
+		d := fmt.Sprintf("c%d %s", i, types[cl.Ty].sql)
 		switch {
 		case i == 0:
 			d += " PRIMARY KEY"
 		case cl.Gen != nil:
-			d += " GENERATED ALWAYS AS (" + cl.Gen.sql() + ") STORED"
+			d += " GENERATED ALWAYS AS (" + cl.Gen.sql() + ")"
+			if cl.Virt {
+				d += " VIRTUAL"
+				hasVirtual = true
+			} else {
+				d += " STORED"
+			}
 		default:
 			if cl.NotNull {
 				d += " NOT NULL"
 			}
 			if cl.HasDef {
 				d += fmt.Sprintf(" DEFAULT %d", cl.Def)
+			} else if cl.DefExpr != nil {
+				d += " DEFAULT (" + cl.DefExpr.sql() + ")"
 			}
 		}
 		defs = append(defs, d)
@@ -508,8 +865,10 @@ func run(c *lib.Ctx, cs caseT) {
 		defs = append(defs, "CHECK ("+ck.sql()+")")
 	}
 	s.MustExec("CREATE TABLE t (" + strings.Join(defs, ", ") + ")")
+	if os.Getenv("C19_DEBUG") != "" {
+		fmt.Println("CREATE TABLE t (" + strings.Join(defs, ", ") + ")")
+	}
 
-	type failT struct{ sig, what string }
 	var fails []failT
 	fail := func(sig, what string) { fails = append(fails, failT{sig, what}) }
 
@@ -533,10 +892,14 @@ func run(c *lib.Ctx, cs caseT) {
 	for si, st := range cs.H {
 		q := st.sql()
 		r := s.Query(q)
+		nWarn := len(s.Ctx.Session.Warnings())
 		kind := errKind(r.Err)
+		if os.Getenv("C19_DEBUG") != "" {
+			fmt.Printf("%s\n   => err=%v warnings=%d\n", q, r.Err, nWarn)
+		}
 		if r.Panic != "" {
 			fail("panic", q+" panicked: "+r.Panic)
-		} else if kind == "other" {
+		} else if kind == "other" || kind == "ETooLong" {
 			fail("unexpected-error/"+st.K, fmt.Sprintf("%s failed: %v", q, r.Err))
 			kind = "EInvalid"
 		}
@@ -548,7 +911,13 @@ func run(c *lib.Ctx, cs caseT) {
 				fail("failed-statement-changed-table/"+st.K, fmt.Sprintf("statement %d %s failed (%v) but the table changed", si, q, r.Err))
 			}
 		}
-		events = append(events, fmt.Sprintf("Ev (%s) %s %s", st.coq(len(cs.Cols)), res, lib.CoqList(tab)))
+		// warning counts: statements without strings (a string adds truncation warnings at every evaluation site)
+		warn := "None"
+		if kind == "" && !st.hasString() && (st.K == "insert" || st.K == "update") {
+			warn = fmt.Sprintf("(Some %d%%N)", nWarn)
+			c.Count("warnings-compared")
+		}
+		events = append(events, fmt.Sprintf("Ev (%s) %s %s %s", st.coq(len(cs.Cols)), res, warn, lib.CoqList(tab)))
 		prevTab = tab
 		shape := st.shape(cs.Cols)
 		// the property, by SQL on the implementation
@@ -556,7 +925,11 @@ func run(c *lib.Ctx, cs caseT) {
 			n := count(s, cq)
 			if n > prevBad[key] {
 				nViol++
-				fail(base+"/"+shape, fmt.Sprintf("after statement %d %s: %d row(s) %s [%s]", si, q, n, descr, cq))
+				sh := st.shapeFor(cs.Cols, base)
+				if base == "check-false-stored" && hasVirtual {
+					sh = "virtual-column-table" // no CHECK is loaded for such a table, whatever the statement
+				}
+				fail(base+"/"+sh, fmt.Sprintf("after statement %d %s: %d row(s) %s [%s]", si, q, n, descr, cq))
 			}
 			prevBad[key] = n
 		}
@@ -571,13 +944,22 @@ func run(c *lib.Ctx, cs caseT) {
 				pred("generated-differs", fmt.Sprintf("gen%d", i), fmt.Sprintf("SELECT COUNT(*) FROM t WHERE NOT (c%d <=> %s)", i, cl.Gen.sql()), fmt.Sprintf("have generated column c%d <> %s", i, cl.Gen.sql()))
 			}
 		}
-		if st.K == "insert" && kind == "" {
+		if (st.K == "insert" || st.K == "replace") && kind == "" {
 			listed := map[int]int{}
 			for j, i := range st.Cols {
 				listed[i] = j + 1
 			}
-			for _, row := range st.Rows {
+			for ri, row := range st.Rows {
 				id := row[0].Z
+				last := true // REPLACE may name the same id twice: the last tuple is the one stored
+				for _, later := range st.Rows[ri+1:] {
+					if later[0].Z == id {
+						last = false
+					}
+				}
+				if !last {
+					continue
+				}
 				for _, v := range vals {
 					if toI(v[0]) != id {
 						continue
@@ -591,6 +973,11 @@ func run(c *lib.Ctx, cs caseT) {
 							continue
 						}
 						switch {
+						case cl.DefExpr != nil:
+							cq := fmt.Sprintf("SELECT COUNT(*) FROM t WHERE c0 = %d AND NOT (c%d <=> %s)", id, i, cl.DefExpr.sql())
+							if count(s, cq) > 0 {
+								fail("default-not-applied/"+st.shapeFor(cs.Cols, "default-not-applied"), fmt.Sprintf("after %s: row %d column c%d holds %v, not its default %s over the stored row [%s]", q, id, i, v[i], cl.DefExpr.sql(), cq))
+							}
 						case cl.HasDef && (v[i] == nil || toI(v[i]) != cl.Def):
 							fail("default-not-applied/"+shape, fmt.Sprintf("after %s: row %d column c%d holds %v, declared default %d", q, id, i, v[i], cl.Def))
 						case !cl.HasDef && v[i] != nil && !(st.Ignore && cl.NotNull && toI(v[i]) == 0):
@@ -617,6 +1004,15 @@ func run(c *lib.Ctx, cs caseT) {
 		if cl.Gen != nil {
 			ng++
 		}
+		if cl.DefExpr != nil {
+			c.Count("expression-default-columns")
+		}
+		if cl.Ty != "I32" && cl.Ty != "I64" {
+			c.Count("narrow-or-unsigned-columns")
+		}
+	}
+	if hasVirtual {
+		c.Count("schemas-with-virtual-column")
 	}
 	c.Count(fmt.Sprintf("generated-columns/%d", ng))
 	for _, st := range cs.H {
@@ -626,74 +1022,488 @@ func run(c *lib.Ctx, cs caseT) {
 		c.Count("case-with-stored-violation")
 	}
 	id := c.Case(term, cs, key)
-	c.PredChecked()
-	seen := map[string]bool{}
-	for _, f := range fails {
-		if !seen[f.sig] {
-			seen[f.sig] = true
-			c.PredFail(id, f.sig, f.what, cs)
+	report(c, id, fails, cs)
+}
+
+// ---- one DECIMAL(p,1) column ----
+
+var dops = map[string]string{"Lt": "DLt", "Le": "DLe", "Gt": "DGt", "Ge": "DGe", "Eq": "DEq", "Ne": "DNe"}
+
+func hundredths(h int64) string {
+	s := ""
+	if h < 0 {
+		s, h = "-", -h
+	}
+	return fmt.Sprintf("%s%d.%02d", s, h/100, h%100)
+}
+
+func (k ScalarCheck) sql() string {
+	switch k.K {
+	case "cmp":
+		return fmt.Sprintf("d %s %d", opSQL[k.Op], k.Lit)
+	case "mulcmp":
+		return fmt.Sprintf("d * %d %s %d", k.M, opSQL[k.Op], k.Lit)
+	case "ne":
+		return fmt.Sprintf("s <> '%s'", k.S)
+	}
+	return fmt.Sprintf("CHAR_LENGTH(s) %s %d", opSQL[k.Op], k.Lit)
+}
+
+func (k ScalarCheck) coq() string {
+	switch k.K {
+	case "cmp":
+		return fmt.Sprintf("DCmp %s %s", dops[k.Op], coqZ(k.Lit))
+	case "mulcmp":
+		return fmt.Sprintf("DMulCmp %s %s %s", coqZ(k.M), dops[k.Op], coqZ(k.Lit))
+	case "ne":
+		return fmt.Sprintf("SNe \"%s\"%%string", k.S)
+	}
+	return fmt.Sprintf("SLen %s %s", dops[k.Op], coqZ(k.Lit))
+}
+
+func pow10(p int) int64 {
+	x := int64(1)
+	for i := 0; i < p; i++ {
+		x *= 10
+	}
+	return x
+}
+
+func roundHalfAway(h int64) int64 {
+	if h >= 0 {
+		return (h + 5) / 10
+	}
+	return -((-h + 5) / 10)
+}
+
+func decTenths(v interface{}) (int64, bool) {
+	var d apd.Decimal
+	switch x := v.(type) {
+	case *apd.Decimal:
+		d = *x
+	case apd.Decimal:
+		d = x
+	default:
+		return 0, false
+	}
+	var t apd.Decimal
+	apd.BaseContext.WithPrecision(40).Mul(&t, &d, apd.New(10, 0))
+	i, err := t.Int64()
+	return i, err == nil
+}
+
+func runDec(c *lib.Ctx, cs caseT) {
+	e := eng.New("db")
+	s := e.Session()
+	defs := []string{"c0 INT PRIMARY KEY", fmt.Sprintf("d DECIMAL(%d,1)", cs.P)}
+	for _, k := range cs.SChecks {
+		defs = append(defs, "CHECK ("+k.sql()+")")
+	}
+	s.MustExec("CREATE TABLE t (" + strings.Join(defs, ", ") + ")")
+	var fails []failT
+	prevBad := map[int]int64{}
+	var evs []string
+	for si, st := range cs.SH {
+		ign := ""
+		if st.Ignore {
+			ign = " IGNORE"
+		}
+		var q string
+		old, oldOK := int64(0), false
+		if st.Upd {
+			r0 := s.Query(fmt.Sprintf("SELECT d FROM t WHERE c0 = %d", st.ID))
+			if len(r0.Rows) == 1 && r0.Rows[0][0] != nil {
+				old, oldOK = decTenths(r0.Rows[0][0])
+			}
+			if !oldOK {
+				continue
+			}
+			q = fmt.Sprintf("UPDATE%s t SET d = %s WHERE c0 = %d", ign, hundredths(st.H), st.ID)
+		} else {
+			q = fmt.Sprintf("INSERT%s INTO t VALUES (%d, %s)", ign, st.ID, hundredths(st.H))
+		}
+		r := s.Query(q)
+		nWarn := len(s.Ctx.Session.Warnings())
+		kind := errKind(r.Err)
+		r1 := s.Query(fmt.Sprintf("SELECT d FROM t WHERE c0 = %d", st.ID))
+		var res string
+		switch {
+		case r.Panic != "":
+			fails = append(fails, failT{"panic", q + " panicked: " + r.Panic})
+			continue
+		case kind == "ECheck":
+			res = "DErr DkCheck"
+		case kind == "ERange":
+			res = "DErr DkRange"
+		case kind != "":
+			fails = append(fails, failT{"unexpected-error/decimal", fmt.Sprintf("%s failed: %v", q, r.Err)})
+			continue
+		default:
+			now, ok := int64(0), false
+			if len(r1.Rows) == 1 && r1.Rows[0][0] != nil {
+				now, ok = decTenths(r1.Rows[0][0])
+			}
+			switch {
+			case !st.Upd && ok:
+				res = fmt.Sprintf("DStored %s %d%%N", coqZ(now), nWarn)
+			case st.Upd && ok && now != old:
+				res = fmt.Sprintf("DStored %s %d%%N", coqZ(now), nWarn)
+			default:
+				res = fmt.Sprintf("DSkipped %d%%N", nWarn)
+			}
+		}
+		if st.Upd {
+			evs = append(evs, fmt.Sprintf("(DUpd %s %s %s, %s)", lib.CoqBool(st.Ignore), coqZ(old), coqZ(st.H), res))
+		} else {
+			evs = append(evs, fmt.Sprintf("(DIns %s %s, %s)", lib.CoqBool(st.Ignore), coqZ(st.H), res))
+		}
+		v := roundHalfAway(st.H)
+		shape := "decimal-other"
+		switch {
+		case st.Upd:
+			shape = "update-decimal"
+		case st.Ignore && (v >= pow10(cs.P) || -v >= pow10(cs.P)):
+			shape = "insert-ignore-out-of-range"
+		case st.H%10 != 0:
+			shape = "insert-decimal-rounding"
+		}
+		c.Count("stmt/" + shape)
+		for ci, k := range cs.SChecks {
+			cq := "SELECT COUNT(*) FROM t WHERE NOT (" + k.sql() + ")"
+			n := count(s, cq)
+			if n > prevBad[ci] {
+				fails = append(fails, failT{"check-false-stored/" + shape, fmt.Sprintf("after statement %d %s: %d row(s) make CHECK (%s) false [%s]", si, q, n, k.sql(), cq)})
+			}
+			prevBad[ci] = n
 		}
 	}
+	term := fmt.Sprintf("CaseD %d %s %s", cs.P, lib.CoqListOf(cs.SChecks, func(k ScalarCheck) string { return k.coq() }), lib.CoqList(evs))
+	c.Count("decimal-cases")
+	id := c.Case(term, cs, fmt.Sprintf("dec|%v|%v", cs.SChecks, cs.SH))
+	report(c, id, fails, cs)
+}
+
+func genDec(r *lib.RNG) caseT {
+	cs := caseT{Kind: "dec", P: r.Range(2, 3)}
+	for i, n := 0, r.Range(1, 2); i < n; i++ {
+		op := lib.Pick(r, []string{"Lt", "Le", "Gt", "Ge", "Ne", "Lt", "Ne"})
+		if r.Chance(1, 2) {
+			cs.SChecks = append(cs.SChecks, ScalarCheck{K: "cmp", Op: op, Lit: int64(lib.Pick(r, []int{0, 5, 10, 3, 7}))})
+		} else {
+			cs.SChecks = append(cs.SChecks, ScalarCheck{K: "mulcmp", Op: op, M: int64(r.Range(2, 3)), Lit: int64(lib.Pick(r, []int{0, 10, 20, 15, 30}))})
+		}
+	}
+	next := int64(1)
+	for i, n := 0, r.Range(5, 9); i < n; i++ {
+		h := int64(r.Range(-200, 1300))
+		if r.Chance(1, 3) {
+			h = int64(lib.Pick(r, []int{495, 496, 504, 995, 996, 994, 1496, 5, -4, 4, 0})) // near the CHECK literals
+		}
+		if r.Chance(1, 8) {
+			h = lib.Pick(r, []int64{100050, -100050, 99996, 9996, -9996, 1000000})
+		}
+		if next > 1 && r.Chance(1, 3) {
+			cs.SH = append(cs.SH, ScalarStmt{Upd: true, Ignore: r.Chance(1, 2), ID: int64(r.Range(1, int(next-1))), H: h})
+		} else {
+			cs.SH = append(cs.SH, ScalarStmt{Ignore: r.Chance(1, 2), ID: next, H: h})
+			next++
+		}
+	}
+	return cs
+}
+
+// ---- one VARCHAR(n) column with g INT AS (CHAR_LENGTH(s)) STORED ----
+
+func runStr(c *lib.Ctx, cs caseT) {
+	e := eng.New("db")
+	s := e.Session()
+	defs := []string{"c0 INT PRIMARY KEY", fmt.Sprintf("s VARCHAR(%d)", cs.P), "g INT GENERATED ALWAYS AS (CHAR_LENGTH(s)) STORED"}
+	for _, k := range cs.SChecks {
+		defs = append(defs, "CHECK ("+k.sql()+")")
+	}
+	s.MustExec("CREATE TABLE t (" + strings.Join(defs, ", ") + ")")
+	var fails []failT
+	prevBad := map[int]int64{}
+	var evs []string
+	for si, st := range cs.SH {
+		ign := ""
+		if st.Ignore {
+			ign = " IGNORE"
+		}
+		var q string
+		old := ""
+		if st.Upd {
+			r0 := s.Query(fmt.Sprintf("SELECT s FROM t WHERE c0 = %d", st.ID))
+			if len(r0.Rows) != 1 || r0.Rows[0][0] == nil {
+				continue
+			}
+			old = r0.Rows[0][0].(string)
+			q = fmt.Sprintf("UPDATE%s t SET s = '%s' WHERE c0 = %d", ign, st.S, st.ID)
+		} else {
+			q = fmt.Sprintf("INSERT%s INTO t (c0, s) VALUES (%d, '%s')", ign, st.ID, st.S)
+		}
+		r := s.Query(q)
+		nWarn := len(s.Ctx.Session.Warnings())
+		kind := errKind(r.Err)
+		r1 := s.Query(fmt.Sprintf("SELECT s, g FROM t WHERE c0 = %d", st.ID))
+		var res string
+		switch {
+		case r.Panic != "":
+			fails = append(fails, failT{"panic", q + " panicked: " + r.Panic})
+			continue
+		case kind == "ECheck":
+			res = "SErr SkCheck"
+		case kind == "ETooLong":
+			res = "SErr SkTooLong"
+		case kind != "":
+			fails = append(fails, failT{"unexpected-error/varchar", fmt.Sprintf("%s failed: %v", q, r.Err)})
+			continue
+		default:
+			if len(r1.Rows) == 1 && r1.Rows[0][0] != nil && (!st.Upd || r1.Rows[0][0].(string) != old) {
+				res = fmt.Sprintf("SStored \"%s\"%%string %s %d%%N", r1.Rows[0][0].(string), coqZ(toI(r1.Rows[0][1])), nWarn)
+			} else {
+				res = fmt.Sprintf("SSkipped %d%%N", nWarn)
+			}
+		}
+		if st.Upd {
+			evs = append(evs, fmt.Sprintf("(SUpd %s \"%s\"%%string \"%s\"%%string, %s)", lib.CoqBool(st.Ignore), old, st.S, res))
+		} else {
+			evs = append(evs, fmt.Sprintf("(SIns %s \"%s\"%%string, %s)", lib.CoqBool(st.Ignore), st.S, res))
+		}
+		shape := "varchar-other"
+		switch {
+		case st.Upd:
+			shape = "update-varchar"
+		case st.Ignore && len(st.S) > cs.P:
+			shape = "insert-ignore-truncate"
+		}
+		c.Count("stmt/" + shape)
+		for ci, k := range cs.SChecks {
+			cq := "SELECT COUNT(*) FROM t WHERE NOT (" + k.sql() + ")"
+			n := count(s, cq)
+			if n > prevBad[ci] {
+				fails = append(fails, failT{"check-false-stored/" + shape, fmt.Sprintf("after statement %d %s: %d row(s) make CHECK (%s) false [%s]", si, q, n, k.sql(), cq)})
+			}
+			prevBad[ci] = n
+		}
+		cq := "SELECT COUNT(*) FROM t WHERE NOT (g <=> CHAR_LENGTH(s))"
+		n := count(s, cq)
+		if n > prevBad[-1] {
+			fails = append(fails, failT{"generated-differs/" + shape, fmt.Sprintf("after statement %d %s: %d row(s) have generated column g <> CHAR_LENGTH(s) [%s]", si, q, n, cq)})
+		}
+		prevBad[-1] = n
+	}
+	term := fmt.Sprintf("CaseS %d%%nat %s %s", cs.P, lib.CoqListOf(cs.SChecks, func(k ScalarCheck) string { return k.coq() }), lib.CoqList(evs))
+	c.Count("varchar-cases")
+	id := c.Case(term, cs, fmt.Sprintf("str|%v|%v", cs.SChecks, cs.SH))
+	report(c, id, fails, cs)
+}
+
+func genStr(r *lib.RNG) caseT {
+	cs := caseT{Kind: "str", P: r.Range(2, 4)}
+	word := func(n int) string {
+		b := make([]byte, n)
+		for i := range b {
+			b[i] = "abc"[r.Intn(3)]
+		}
+		return string(b)
+	}
+	for i, n := 0, r.Range(1, 2); i < n; i++ {
+		if r.Chance(1, 2) {
+			cs.SChecks = append(cs.SChecks, ScalarCheck{K: "ne", S: word(r.Range(cs.P-1, cs.P))})
+		} else {
+			cs.SChecks = append(cs.SChecks, ScalarCheck{K: "len", Op: lib.Pick(r, []string{"Ne", "Lt", "Gt", "Le"}), Lit: int64(r.Range(1, cs.P))})
+		}
+	}
+	next := int64(1)
+	for i, n := 0, r.Range(5, 9); i < n; i++ {
+		w := word(r.Range(0, cs.P+2))
+		if cs.SChecks[0].K == "ne" && r.Chance(1, 3) {
+			w = cs.SChecks[0].S + word(r.Range(0, 2))
+		}
+		if next > 1 && r.Chance(1, 3) {
+			cs.SH = append(cs.SH, ScalarStmt{Upd: true, Ignore: r.Chance(1, 2), ID: int64(r.Range(1, int(next-1))), S: w})
+		} else {
+			cs.SH = append(cs.SH, ScalarStmt{Ignore: r.Chance(1, 2), ID: next, S: w})
+			next++
+		}
+	}
+	return cs
+}
+
+// ---- scripts outside the model: BEFORE triggers, foreign key actions ----
+
+func runScript(c *lib.Ctx, cs caseT) {
+	e := eng.New("db")
+	s := e.Session()
+	var fails []failT
+	for _, q := range cs.Script.Setup {
+		if r := s.Query(q); r.Err != nil {
+			panic(fmt.Sprintf("setup statement failed: %s: %v", q, r.Err))
+		}
+	}
+	prev := make([]int64, len(cs.Script.Counts))
+	for si, q := range cs.Script.Stmts {
+		r := s.Query(q)
+		if r.Panic != "" {
+			fails = append(fails, failT{"panic", q + " panicked: " + r.Panic})
+		}
+		for i, cq := range cs.Script.Counts {
+			n := count(s, cq)
+			if n > prev[i] {
+				fails = append(fails, failT{cs.Script.Sigs[i], fmt.Sprintf("after statement %d %s (err=%v): %d row(s) [%s]", si, q, r.Err, n, cq)})
+			}
+			prev[i] = n
+		}
+	}
+	c.Count("script-cases")
+	id := c.CaseNoModel(cs, "script|"+strings.Join(cs.Script.Stmts, ";"))
+	report(c, id, fails, cs)
 }
 
 func iptr(z int64) *int64 { return &z }
+func ri(z int64) Raw      { return Raw{K: "int", Z: z} }
+
+func corpus() []caseT {
+	i32 := func(c Col) Col { c.Ty = "I32"; return c }
+	id := Col{Ty: "I32", NotNull: true}
+	cs := []caseT{
+		// known finding: CHECK evaluated before the conversion: '9.6' passes c1 < 10 and is stored as 10
+		{Cols: []Col{id, i32(Col{})}, Checks: []Check{{Op: "Lt", L: col(1), R: lit(10)}},
+			H: []Stmt{{K: "insert", Cols: []int{0, 1}, Rows: [][]Raw{{ri(1), {K: "strf", Z: 96}}}},
+				{K: "insert", Cols: []int{0, 1}, Rows: [][]Raw{{ri(2), {K: "dec", Z: 96}}}},
+				{K: "insert", Cols: []int{0, 1}, Rows: [][]Raw{{ri(3), ri(10)}}}}},
+		// known finding: stored generated column computed from the unconverted value: '9.6' -> c1 = 10, c2 = 9*2
+		{Cols: []Col{id, i32(Col{}), i32(Col{Gen: mul(col(1), lit(2))})},
+			H: []Stmt{{K: "insert", Cols: []int{0, 1}, Rows: [][]Raw{{ri(1), {K: "strf", Z: 96}}}}}},
+		// known finding: UPDATE IGNORE sets NULL := 0 after the checks and after the generated columns
+		{Cols: []Col{id, i32(Col{NotNull: true}), i32(Col{Gen: add(col(1), lit(1))})}, Checks: []Check{{Op: "Gt", L: col(1), R: lit(5)}},
+			H: []Stmt{{K: "insert", Cols: []int{0, 1}, Rows: [][]Raw{{ri(1), ri(7)}}},
+				{K: "update", Ignore: true, Sets: []Set{{I: 1, Raw: &Raw{K: "null"}}}, Where: iptr(1)}}},
+		// known finding: INSERT IGNORE sets NULL := 0 after the generated column was computed from NULL
+		{Cols: []Col{id, i32(Col{NotNull: true}), i32(Col{HasDef: true, Def: 4}), i32(Col{Gen: add(col(1), col(2))})},
+			H: []Stmt{{K: "insert", Ignore: true, Cols: []int{0, 1}, Rows: [][]Raw{{ri(1), {K: "null"}}}}}},
+		// defaults, NOT NULL errors, update recomputation
+		{Cols: []Col{id, i32(Col{NotNull: true}), i32(Col{HasDef: true, Def: 4}), i32(Col{Gen: add(col(1), col(2))})}, Checks: []Check{{Op: "Lt", L: col(2), R: col(1)}},
+			H: []Stmt{{K: "insert", Cols: []int{0, 1}, Rows: [][]Raw{{ri(1), ri(7)}}},
+				{K: "insert", Cols: []int{0, 2}, Rows: [][]Raw{{ri(2), ri(1)}}},
+				{K: "insert", Cols: []int{0, 1, 2}, Rows: [][]Raw{{ri(3), ri(9), {K: "null"}}, {ri(4), ri(2), {K: "def"}}}},
+				{K: "update", Sets: []Set{{I: 2, Raw: &Raw{K: "int", Z: 2}}, {I: 1, T: add(col(2), lit(10))}}, Where: iptr(1)},
+				{K: "update", Sets: []Set{{I: 1, T: add(col(1), lit(-8))}}}}},
+		// generated column over a generated column through UPDATE and ON DUPLICATE KEY UPDATE (VALUES(), two rows), REPLACE
+		{Cols: []Col{id, i32(Col{}), i32(Col{Gen: add(col(1), lit(1))}), i32(Col{Gen: mul(col(2), lit(2))})}, Checks: []Check{{Op: "Lt", L: col(2), R: lit(100)}},
+			H: []Stmt{{K: "insert", Cols: []int{0, 1}, Rows: [][]Raw{{ri(1), ri(5)}, {ri(2), {K: "null"}}}},
+				{K: "update", Sets: []Set{{I: 1, Raw: &Raw{K: "int", Z: 7}}}, Where: iptr(1)},
+				{K: "update", Sets: []Set{{I: 1, Raw: &Raw{K: "int", Z: 150}}}, Where: iptr(1)},
+				{K: "upsert", Cols: []int{0, 1}, Rows: [][]Raw{{ri(1), ri(9)}}, Sets: []Set{{I: 1, Raw: &Raw{K: "int", Z: 20}}}},
+				{K: "upsert", Cols: []int{0, 1}, Rows: [][]Raw{{ri(1), ri(9)}}, Sets: []Set{{I: 1, Raw: &Raw{K: "int", Z: 150}}}},
+				{K: "upsert", Cols: []int{0, 1}, Rows: [][]Raw{{ri(3), ri(9)}, {ri(1), ri(30)}}, Sets: []Set{{I: 1, T: add(newv(1), lit(1))}}},
+				{K: "upsert", Ignore: true, Cols: []int{0, 1}, Rows: [][]Raw{{ri(2), ri(9)}, {ri(4), ri(4)}}, Sets: []Set{{I: 1, Raw: &Raw{K: "int", Z: 500}}}},
+				{K: "replace", Cols: []int{0, 1}, Rows: [][]Raw{{ri(2), ri(11)}, {ri(5), ri(12)}}},
+				{K: "replace", Cols: []int{0, 1}, Rows: [][]Raw{{ri(6), ri(1)}, {ri(1), ri(200)}}},
+				{K: "update", Sets: []Set{{I: 1, T: add(col(1), lit(40))}}}}},
+		// new finding: IGNORE clamps (TINYINT 200 -> 127) / wraps (UNSIGNED -5 -> 251) after the CHECK and the generated column saw the written value
+		{Cols: []Col{id, {Ty: "I8"}, {Ty: "U8"}, {Ty: "I64", Gen: add(col(1), lit(1))}}, Checks: []Check{{Op: "Ne", L: col(1), R: lit(127)}, {Op: "Lt", L: col(2), R: lit(100)}},
+			H: []Stmt{{K: "insert", Cols: []int{0, 1, 2}, Rows: [][]Raw{{ri(1), ri(200), ri(1)}}},
+				{K: "insert", Ignore: true, Cols: []int{0, 1, 2}, Rows: [][]Raw{{ri(2), ri(200), ri(1)}}},
+				{K: "insert", Ignore: true, Cols: []int{0, 1, 2}, Rows: [][]Raw{{ri(3), ri(1), ri(-5)}}},
+				{K: "insert", Ignore: true, Cols: []int{0, 1, 2}, Rows: [][]Raw{{ri(4), ri(127), ri(1)}, {ri(5), {K: "stri", Z: -200}, ri(300)}}},
+				{K: "update", Sets: []Set{{I: 1, Raw: &Raw{K: "int", Z: 200}}}, Where: iptr(3)},
+				{K: "update", Sets: []Set{{I: 1, Raw: &Raw{K: "int", Z: -200}}, {I: 2, T: add(col(2), lit(-300))}}, Where: iptr(3)}}},
+		// new finding: IGNORE keeps the numeric prefix of '12abc' although the CHECK compared it as 0
+		{Cols: []Col{id, {Ty: "I8"}}, Checks: []Check{{Op: "Ne", L: col(1), R: lit(12)}},
+			H: []Stmt{{K: "insert", Cols: []int{0, 1}, Rows: [][]Raw{{ri(1), {K: "bad", Z: 12}}}},
+				{K: "insert", Ignore: true, Cols: []int{0, 1}, Rows: [][]Raw{{ri(2), {K: "bad", Z: 12}}, {ri(3), {K: "bad", Z: 0}}}},
+				{K: "update", Ignore: true, Sets: []Set{{I: 1, Raw: &Raw{K: "bad", Z: 12}}}, Where: iptr(3)},
+				{K: "update", Sets: []Set{{I: 1, Raw: &Raw{K: "bad", Z: 12}}}, Where: iptr(3)}}},
+		// new finding: an expression default is computed from the value as written ('3.6' + 1 = 4, c1 stored as 4)
+		{Cols: []Col{id, i32(Col{}), {Ty: "I64", DefExpr: add(col(1), lit(1))}, {Ty: "I64", DefExpr: mul(col(2), lit(2))}},
+			H: []Stmt{{K: "insert", Cols: []int{0, 1}, Rows: [][]Raw{{ri(1), ri(3)}}},
+				{K: "insert", Cols: []int{0, 1, 2}, Rows: [][]Raw{{ri(2), ri(3), ri(7)}, {ri(3), ri(5), {K: "def"}}}},
+				{K: "insert", Cols: []int{0, 1}, Rows: [][]Raw{{ri(4), {K: "strf", Z: 36}}}},
+				{K: "update", Sets: []Set{{I: 1, Raw: &Raw{K: "int", Z: 9}}, {I: 2, Raw: &Raw{K: "def"}}}, Where: iptr(1)}}},
+		// new finding: no CHECK is enforced on a table with a VIRTUAL generated column (INSERT and UPDATE)
+		{Cols: []Col{id, i32(Col{}), {Ty: "I64", Gen: add(col(1), lit(1)), Virt: true}, {Ty: "I64", Gen: mul(col(2), lit(2))}}, Checks: []Check{{Op: "Lt", L: col(1), R: lit(10)}},
+			H: []Stmt{{K: "insert", Cols: []int{0, 1}, Rows: [][]Raw{{ri(1), ri(3)}}},
+				{K: "insert", Cols: []int{0, 1}, Rows: [][]Raw{{ri(2), ri(30)}}},
+				{K: "update", Sets: []Set{{I: 1, Raw: &Raw{K: "int", Z: 50}}}, Where: iptr(1)},
+				{K: "insert", Cols: []int{0, 1}, Rows: [][]Raw{{ri(3), {K: "strf", Z: 86}}}}}},
+		// new finding: an explicit value for a generated column is accepted in every tuple but the first
+		{Cols: []Col{id, i32(Col{}), {Ty: "I64", Gen: add(col(1), lit(1))}},
+			H: []Stmt{{K: "insert", Cols: []int{0, 1, 2}, Rows: [][]Raw{{ri(1), ri(1), ri(99)}}},
+				{K: "insert", Cols: []int{0, 1, 2}, Rows: [][]Raw{{ri(2), ri(1), {K: "def"}}, {ri(3), ri(1), ri(99)}}},
+				{K: "replace", Cols: []int{0, 1, 2}, Rows: [][]Raw{{ri(4), ri(1), {K: "def"}}, {ri(2), ri(1), ri(98)}}}}},
+		// DECIMAL(3,1): CHECK (d * 2 < 20) passes on 9.96 which is stored as 10.0; IGNORE stores 0.0 for an out-of-range value after CHECK (d <> 0) passed
+		{Kind: "dec", P: 3, SChecks: []ScalarCheck{{K: "mulcmp", M: 2, Op: "Lt", Lit: 20}, {K: "cmp", Op: "Ne", Lit: 0}},
+			SH: []ScalarStmt{{ID: 1, H: 996}, {ID: 2, H: 994}, {ID: 3, H: -100050}, {Ignore: true, ID: 4, H: -100050}, {Upd: true, ID: 2, H: 996}, {Upd: true, Ignore: true, ID: 2, H: 996}, {Upd: true, Ignore: true, ID: 2, H: -100050}}},
+		{Kind: "dec", P: 3, SChecks: []ScalarCheck{{K: "cmp", Op: "Lt", Lit: 10}, {K: "cmp", Op: "Ne", Lit: 5}},
+			SH: []ScalarStmt{{ID: 1, H: 995}, {ID: 2, H: 994}, {ID: 3, H: 496}, {ID: 4, H: 504}, {Ignore: true, ID: 5, H: 999}, {Upd: true, ID: 2, H: 496}}},
+		// VARCHAR(3): IGNORE truncates 'abcd' to 'abc' after the CHECKs and the generated column saw 'abcd'
+		{Kind: "str", P: 3, SChecks: []ScalarCheck{{K: "ne", S: "abc"}, {K: "len", Op: "Ne", Lit: 3}},
+			SH: []ScalarStmt{{ID: 1, S: "abcd"}, {Ignore: true, ID: 2, S: "abcd"}, {Ignore: true, ID: 3, S: "xy"}, {ID: 4, S: "abc"}, {Upd: true, ID: 3, S: "abcd"}, {Upd: true, Ignore: true, ID: 3, S: "abcd"}, {Upd: true, Ignore: true, ID: 3, S: "zz"}}},
+		// BEFORE triggers that set NEW.c1 leave the stored generated column computed from the value before the trigger
+		{Kind: "script", Script: &Script{
+			Setup: []string{"CREATE TABLE t (c0 INT PRIMARY KEY, c1 INT, c2 INT AS (c1 + 1) STORED, CHECK (c1 < 10))",
+				"CREATE TRIGGER tr BEFORE UPDATE ON t FOR EACH ROW SET NEW.c1 = NEW.c1 + 2", "INSERT INTO t (c0, c1) VALUES (1, 1)"},
+			Stmts:  []string{"UPDATE t SET c1 = 3 WHERE c0 = 1", "UPDATE t SET c1 = 8 WHERE c0 = 1"},
+			Counts: []string{"SELECT COUNT(*) FROM t WHERE NOT (c2 <=> (c1 + 1))", "SELECT COUNT(*) FROM t WHERE NOT (c1 < 10)"},
+			Sigs:   []string{"generated-differs/before-trigger-sets-new", "check-false-stored/before-trigger-sets-new"}}},
+		{Kind: "script", Script: &Script{
+			Setup: []string{"CREATE TABLE t (c0 INT PRIMARY KEY, c1 INT, c2 INT AS (c1 + 1) STORED, CHECK (c1 < 10))",
+				"CREATE TRIGGER tr BEFORE INSERT ON t FOR EACH ROW SET NEW.c1 = NEW.c1 + 2"},
+			Stmts:  []string{"INSERT INTO t (c0, c1) VALUES (1, 1)", "INSERT INTO t (c0, c1) VALUES (2, 8)"},
+			Counts: []string{"SELECT COUNT(*) FROM t WHERE NOT (c2 <=> (c1 + 1))", "SELECT COUNT(*) FROM t WHERE NOT (c1 < 10)"},
+			Sigs:   []string{"generated-differs/before-trigger-sets-new", "check-false-stored/before-trigger-sets-new"}}},
+		// a decimal literal written into an UNSIGNED column reaches the CHECK unrounded: 0.3 <> 0 passes, 0 is stored (strict mode)
+		{Kind: "script", Script: &Script{
+			Setup:  []string{"CREATE TABLE t (c0 INT PRIMARY KEY, c1 TINYINT UNSIGNED, c2 INT, CHECK (c1 <> 0), CHECK (c2 <> 0))"},
+			Stmts:  []string{"INSERT INTO t VALUES (1, 1, 0.3)", "INSERT INTO t VALUES (2, 0.3, 1)"},
+			Counts: []string{"SELECT COUNT(*) FROM t WHERE NOT (c1 <> 0)", "SELECT COUNT(*) FROM t WHERE NOT (c2 <> 0)"},
+			Sigs:   []string{"check-false-stored/insert-decimal-literal-unsigned", "check-false-stored/insert-decimal-literal-signed"}}},
+		// foreign key actions write the child row without evaluating its CHECKs
+		{Kind: "script", Script: &Script{
+			Setup: []string{"CREATE TABLE p (id INT PRIMARY KEY, k INT, UNIQUE KEY (k))",
+				"CREATE TABLE t (c0 INT PRIMARY KEY, k INT, CHECK (k < 10), CHECK (k IS NOT NULL), FOREIGN KEY (k) REFERENCES p (k) ON UPDATE CASCADE ON DELETE SET NULL)",
+				"INSERT INTO p VALUES (1, 5), (2, 6)", "INSERT INTO t VALUES (1, 5), (2, 6)"},
+			Stmts:  []string{"UPDATE p SET k = 20 WHERE id = 1", "DELETE FROM p WHERE id = 2"},
+			Counts: []string{"SELECT COUNT(*) FROM t WHERE NOT (k < 10)", "SELECT COUNT(*) FROM t WHERE NOT (k IS NOT NULL)"},
+			Sigs:   []string{"check-false-stored/foreign-key-cascade", "check-false-stored/foreign-key-set-null"}}},
+	}
+	return cs
+}
 
 func main() {
 	lib.Main("C19", func(c *lib.Ctx) {
-		c.Header = "From Coq Require Import List ZArith.\nImport ListNotations.\nFrom GMS Require Import Store.C19Check Corr.C19.\nOpen Scope N_scope."
+		c.Header = "From Coq Require Import List ZArith String.\nImport ListNotations.\nFrom GMS Require Import Store.C19Check Store.C19Scalar Corr.C19.\nOpen Scope N_scope."
 		c.CaseType = "C19.case"
 		c.MismatchFn = "C19.mismatches"
-		c.SetRule("table t (c0 INT PRIMARY KEY, 2-3 INT columns with random NOT NULL / DEFAULT, 0-2 STORED generated columns col+k | col*k | col+col, " +
-			"0-3 CHECKs col op lit | col op col | col+col op lit | col+k op lit); histories of 5-11 INSERT [IGNORE] (1-3 rows, column subsets, " +
-			"values: ints, NULL, DEFAULT, decimal literals, integer strings, fractional strings) and UPDATE [IGNORE] (1-2 SET of literal or expression, " +
-			"WHERE c0 = k or all rows). Non-trivial = at least one CHECK or generated column; distinct = distinct (schema, history).")
+		c.SetRule("table t (c0 INT PRIMARY KEY, 2-3 columns of TINYINT/SMALLINT/INT [UNSIGNED] (half of the schemas: INT only) with random NOT NULL / literal DEFAULT / " +
+			"expression DEFAULT over an earlier column, 0-2 STORED or VIRTUAL generated columns col+k | col*k | col+col | over the previous generated column, " +
+			"0-3 CHECKs col op lit | col op col | col+col op lit | col+k op lit | col op type-bound); histories of 5-11 INSERT [IGNORE] (1-3 rows, column subsets, " +
+			"values: ints, NULL, DEFAULT, decimal literals, integer strings, fractional strings, malformed strings, out-of-range values; sometimes an explicit value " +
+			"for a generated column), UPDATE [IGNORE] (1-2 SET of literal or expression, WHERE c0 = k or all rows), INSERT [IGNORE] .. ON DUPLICATE KEY UPDATE " +
+			"(1-2 rows, VALUES()), REPLACE (1-2 rows). 1/8 of the cases: one DECIMAL(p,1) column, 1/8: one VARCHAR(n) column with a generated CHAR_LENGTH. " +
+			"Non-trivial = at least one CHECK or generated column; distinct = distinct (schema, history).")
 		if c.ReplayFile != "" {
 			var cs caseT
 			lib.LoadReplay(c.ReplayFile, &cs)
 			run(c, cs)
 			return
 		}
-		corpus := []caseT{
-			// known finding: CHECK evaluated before the conversion: '9.6' passes c1 < 10 and is stored as 10
-			{Cols: []Col{{NotNull: true}, {}}, Checks: []Check{{Op: "Lt", L: col(1), R: lit(10)}},
-				H: []Stmt{{K: "insert", Cols: []int{0, 1}, Rows: [][]Raw{{{K: "int", Z: 1}, {K: "strf", Z: 96}}}},
-					{K: "insert", Cols: []int{0, 1}, Rows: [][]Raw{{{K: "int", Z: 2}, {K: "dec", Z: 96}}}},
-					{K: "insert", Cols: []int{0, 1}, Rows: [][]Raw{{{K: "int", Z: 3}, {K: "int", Z: 10}}}}}},
-			// known finding: stored generated column computed from the unconverted value: '9.6' -> c1 = 10, c2 = 9*2
-			{Cols: []Col{{NotNull: true}, {}, {Gen: mul(col(1), lit(2))}},
-				H: []Stmt{{K: "insert", Cols: []int{0, 1}, Rows: [][]Raw{{{K: "int", Z: 1}, {K: "strf", Z: 96}}}}}},
-			// known finding: UPDATE IGNORE sets NULL := 0 after the checks and after the generated columns
-			{Cols: []Col{{NotNull: true}, {NotNull: true}, {Gen: add(col(1), lit(1))}}, Checks: []Check{{Op: "Gt", L: col(1), R: lit(5)}},
-				H: []Stmt{{K: "insert", Cols: []int{0, 1}, Rows: [][]Raw{{{K: "int", Z: 1}, {K: "int", Z: 7}}}},
-					{K: "update", Ignore: true, Sets: []Set{{I: 1, Raw: &Raw{K: "null"}}}, Where: iptr(1)}}},
-			// known finding: INSERT IGNORE sets NULL := 0 after the generated column was computed from NULL
-			{Cols: []Col{{NotNull: true}, {NotNull: true}, {HasDef: true, Def: 4}, {Gen: add(col(1), col(2))}},
-				H: []Stmt{{K: "insert", Ignore: true, Cols: []int{0, 1}, Rows: [][]Raw{{{K: "int", Z: 1}, {K: "null"}}}}}},
-			// defaults, NOT NULL errors, update recomputation
-			{Cols: []Col{{NotNull: true}, {NotNull: true}, {HasDef: true, Def: 4}, {Gen: add(col(1), col(2))}}, Checks: []Check{{Op: "Lt", L: col(2), R: col(1)}},
-				H: []Stmt{{K: "insert", Cols: []int{0, 1}, Rows: [][]Raw{{{K: "int", Z: 1}, {K: "int", Z: 7}}}},
-					{K: "insert", Cols: []int{0, 2}, Rows: [][]Raw{{{K: "int", Z: 2}, {K: "int", Z: 1}}}},
-					{K: "insert", Cols: []int{0, 1, 2}, Rows: [][]Raw{{{K: "int", Z: 3}, {K: "int", Z: 9}, {K: "null"}}, {{K: "int", Z: 4}, {K: "int", Z: 2}, {K: "def"}}}},
-					{K: "update", Sets: []Set{{I: 2, Raw: &Raw{K: "int", Z: 2}}, {I: 1, T: add(col(2), lit(10))}}, Where: iptr(1)},
-					{K: "update", Sets: []Set{{I: 1, T: add(col(1), lit(-8))}}}}},
-		}
-		corpus = append(corpus,
-			// generated column over a generated column: c3 = c2 * 2 must follow c1 through UPDATE and ON DUPLICATE KEY UPDATE;
-			// CHECK over a stored generated column: UPDATE c1 = 150 must be rejected
-			caseT{Cols: []Col{{NotNull: true}, {}, {Gen: add(col(1), lit(1))}, {Gen: mul(col(2), lit(2))}}, Checks: []Check{{Op: "Lt", L: col(2), R: lit(100)}},
-				H: []Stmt{{K: "insert", Cols: []int{0, 1}, Rows: [][]Raw{{{K: "int", Z: 1}, {K: "int", Z: 5}}, {{K: "int", Z: 2}, {K: "null"}}}},
-					{K: "update", Sets: []Set{{I: 1, Raw: &Raw{K: "int", Z: 7}}}, Where: iptr(1)},
-					{K: "update", Sets: []Set{{I: 1, Raw: &Raw{K: "int", Z: 150}}}, Where: iptr(1)},
-					{K: "upsert", Cols: []int{0, 1}, Rows: [][]Raw{{{K: "int", Z: 1}, {K: "int", Z: 9}}}, Sets: []Set{{I: 1, Raw: &Raw{K: "int", Z: 20}}}},
-					{K: "upsert", Cols: []int{0, 1}, Rows: [][]Raw{{{K: "int", Z: 1}, {K: "int", Z: 9}}}, Sets: []Set{{I: 1, Raw: &Raw{K: "int", Z: 150}}}},
-					{K: "upsert", Cols: []int{0, 1}, Rows: [][]Raw{{{K: "int", Z: 3}, {K: "int", Z: 9}}}, Sets: []Set{{I: 1, Raw: &Raw{K: "int", Z: 1}}}},
-					{K: "upsert", Cols: []int{0, 1}, Rows: [][]Raw{{{K: "int", Z: 2}, {K: "int", Z: 9}}}, Sets: []Set{{I: 1, T: add(col(1), lit(1))}}},
-					{K: "update", Sets: []Set{{I: 1, T: add(col(1), lit(40))}}}}})
-		for _, cs := range corpus {
+		cp := corpus()
+		for _, cs := range cp {
 			run(c, cs)
 		}
-		for i := len(corpus); i < c.N; i++ {
-			run(c, gen(c.R.Fork()))
+		for i := len(cp); i < c.N; i++ {
+			r := c.R.Fork()
+			switch r.Intn(8) {
+			case 0:
+				run(c, genDec(r))
+			case 1:
+				run(c, genStr(r))
+			default:
+				run(c, gen(r))
+			}
 		}
 	})
 }
